@@ -37,7 +37,7 @@ Utf8Validator = uv.Utf8Validator
 if mode == "nvx":
     from autobahn.nvx import _utf8validator as nv
     assert Utf8Validator is nv.Utf8Validator
-    assert os.path.realpath(sys.modules["_nvx_utf8validator"].__file__).startswith("/verif/build/nvx"), \
+    assert os.path.realpath(sys.modules["_nvx_utf8validator"].__file__).startswith(os.path.join(os.path.dirname(os.path.dirname(os.path.dirname(os.path.realpath(__file__)))), "build", "nvx")), \
         sys.modules["_nvx_utf8validator"].__file__
 else:
     assert Utf8Validator.__module__ == "autobahn.websocket.utf8validator"
